@@ -337,7 +337,7 @@ var (
 )
 
 // nameAbstractor replaces identifiers derived from the schema's object names
-// (Root, RootF, NewRootBuilder, rootBuilder, ...) by <T>.
+// (Root, RootF, NewRootBuilder, rootBuilder, ...) by <*>.
 func nameAbstractor(names []string) func(string) string {
 	var alts []string
 	seen := map[string]bool{}
@@ -365,7 +365,7 @@ func nameAbstractor(names []string) func(string) string {
 	// a name followed by an upper-case/digit continuation or the end of the identifier, optionally prefixed by
 	// New/new or the upper-cased package name (Java: PRootF)
 	re := regexp.MustCompile(`\b(?:New|new)?P?(?:` + strings.Join(alts, "|") + `)(?:[A-Z0-9_][A-Za-z0-9_]*)?\b`)
-	return func(s string) string { return re.ReplaceAllString(abstractDerived(s), "<T>") }
+	return func(s string) string { return re.ReplaceAllString(abstractDerived(s), "<*>") }
 }
 
 var (
@@ -380,10 +380,10 @@ func abstractDerived(s string) string {
 	s = reDisjName.ReplaceAllStringFunc(s, func(m string) string {
 		for _, suf := range []string{"Deserializer", "Serializer", "Builder", "Converter"} {
 			if strings.HasSuffix(m, suf) {
-				return "<T>" + suf
+				return "<*>" + suf
 			}
 		}
-		return "<T>"
+		return "<*>"
 	})
 	return reFieldAcc.ReplaceAllString(s, "$1.<f>")
 }
